@@ -131,6 +131,15 @@ def wf_family(prop, tier):
             "{ vf_setd(bundle, RdV, 3); }", "{ RxV = vf_getx(bundle, RxV); }", "{ R0 = vf_fadd(R1, R2); }", "{ R0 = vf_usr(bundle); }",
             "{ vf_expl(bundle, R2); }", "{ R0 = vf_pure(R1); }", "{ R0 = vf_npc(bundle); }", "{ vf_cancel(bundle, R1); }",
             "{ int32_t hi_x = RsV; RdV = hi_x; }", "{ int32_t pktx = RsV; RdV = pktx; }", "{ int32_t this_hi = R1; R0 = this_hi; }"]
+    # postfix operators and loop counters of every width
+    for (t, w, _) in TYPES:
+        out.append(f"{{ {decl(t, w, 'n', 's')} n++; RddV = n; }}")
+        out.append(f"{{ {decl(t, w, 'n', 's')} n--; RddV = n; }}")
+        out.append(f"{{ {decl(t, w, 'n', 's')} RddV = n++ + n--; }}")
+        out.append(f"{{ {t} q; for (q = 0; q < 3; q++) {{ RxV = RxV + q; }} }}")
+        out.append(f"{{ {t} q; for (q = 3; q > 0; q--) {{ RxV = RxV + q; }} }}")
+        out.append(f"{{ {decl(t, w, 'n', 's')} RddV = (RtV > 0) ? n : -n; }}")
+        out.append(f"{{ {decl(t, w, 'n', 's')} RddV = ~n; RxV = !n; }}")
     # heavy operand re-use
     for n in (2, 3, 5, 9):
         out.append("{ RdV = " + " + ".join(["RsV"] * n) + "; }")
